@@ -85,3 +85,75 @@ func VerifC12KeyNotation() {
 	nd.Assert(err == nil && len(got) == 3, "C12-number-key-identity-is-by-value")
 	nd.Reach("end")
 }
+
+// vFracNumerals: numerals in ascending order of value - negative and positive fractions less than one apart,
+// and a two-digit value whose text sorts before "2".
+var vFracNumerals = []string{"-2.5", "-1.25", "0", "1.25", "1.5", "10"}
+
+// VerifC02NumericRange: Query over a number-typed sort key holding fractional values: every sort-key condition
+// (=, <, <=, >, >=, BETWEEN) selects by numeric value - also between values less than one apart - and the
+// result is in numeric order in either direction. Items and operands are drawn from a list of numerals whose
+// order is known, so the reference works on list positions.
+func VerifC02NumericRange() {
+	c := vNumTable(types.ScalarAttributeTypeN)
+	k := len(vFracNumerals)
+	i1 := nd.Choice("item1", k)
+	i2 := nd.Choice("item2", k)
+	nd.Assume(i1 < i2)
+	nd.Assert(vPut(c, vItem{"p": vS("a"), "s": vN(vFracNumerals[i2])}) == nil && vPut(c, vItem{"p": vS("a"), "s": vN(vFracNumerals[i1])}) == nil, "setup-put")
+	ops := []string{"=", "<", "<=", ">", ">=", "BETWEEN"}
+	op := nd.Choice("op", len(ops))
+	o1 := nd.Choice("operand1", k)
+	o2 := o1
+	cond := "p = :p AND s " + ops[op] + " :a"
+	vals := vItem{":p": vS("a"), ":a": vN(vFracNumerals[o1])}
+	if ops[op] == "BETWEEN" {
+		o2 = nd.Choice("operand2", k)
+		nd.Assume(o1 <= o2)
+		cond += " AND :b"
+		vals[":b"] = vN(vFracNumerals[o2])
+	}
+	sel := func(i int) bool {
+		switch ops[op] {
+		case "=":
+			return i == o1
+		case "<":
+			return i < o1
+		case "<=":
+			return i <= o1
+		case ">":
+			return i > o1
+		case ">=":
+			return i >= o1
+		}
+		return i >= o1 && i <= o2
+	}
+	fwd := nd.Choice("forward", 2) == 1
+	var want []string
+	for _, i := range []int{i1, i2} {
+		if sel(i) {
+			want = append(want, vFracNumerals[i])
+		}
+	}
+	if !fwd && len(want) == 2 {
+		want[0], want[1] = want[1], want[0]
+	}
+	q, err := c.Query(vCtx, &dynamodb.QueryInput{TableName: aws.String(vTbl), KeyConditionExpression: aws.String(cond),
+		ExpressionAttributeValues: vals, ScanIndexForward: aws.Bool(fwd)})
+	nd.Assert(err == nil, "C02-numeric-range-noerr ["+ops[op]+"]")
+	if err == nil {
+		nd.Assert(len(q.Items) == len(want) && int(q.Count) == len(want), "C02-numeric-range-selects-by-value ["+ops[op]+"]")
+		if len(q.Items) == len(want) {
+			for j := range want {
+				got, _ := q.Items[j]["s"].(*types.AttributeValueMemberN)
+				nd.Assert(got != nil && got.Value == want[j], "C02-numeric-range-in-order ["+ops[op]+"]")
+			}
+		}
+	}
+	// the same condition as a Scan filter
+	if ops[op] != "BETWEEN" {
+		sc, serr := c.Scan(vCtx, &dynamodb.ScanInput{TableName: aws.String(vTbl), FilterExpression: aws.String("s " + ops[op] + " :a"), ExpressionAttributeValues: vItem{":a": vN(vFracNumerals[o1])}})
+		nd.Assert(serr == nil && len(sc.Items) == len(want), "C02-numeric-filter-selects-by-value ["+ops[op]+"]")
+	}
+	nd.Reach("end")
+}
